@@ -10,7 +10,8 @@ from .. import runner_common as rc
 from ..core import Prop
 from .c02 import ENC, nl, text, cut_inside_sequence
 
-CHARS = ["a", "b", "\n", "é", "ß", "€", "\U0001F600", "\x00", "\x7f", "ÿ", "Ā"]
+CHARS = ["a", "b", "\n", "é", "ß", "€", "\U0001F600", "\x00", "\x7f", "ÿ", "Ā",
+         "\r", "\t", "\x04", "\x03", "\x1b"]      # control characters travel unchanged: CR, TAB, ^D, ^C, ESC
 
 
 def unit_coq(u):
@@ -99,8 +100,8 @@ class C13(Prop):
             stream = None
         else:
             stream = {"mode": "bytes" if rng.random() < 0.35 else "text", "tty": rng.random() < 0.4}
-        pool = CHARS if enc == "utf-8" else (["a", "b", "\n", "é", "ÿ", "\x00"] if enc == "latin-1"
-                                             else ["a", "b", "\n", "\x00", "\x7f"])
+        pool = CHARS if enc == "utf-8" else (["a", "b", "\n", "é", "ÿ", "\x00", "\r", "\x04"] if enc == "latin-1"
+                                             else ["a", "b", "\n", "\x00", "\x7f", "\r", "\t", "\x03", "\x1b"])
         n = rng.choice([0, 0, 1, 2, 3, 4, 6])
         s = "".join(rng.choice(pool) for _ in range(n))
         units = []
@@ -135,8 +136,18 @@ class C13(Prop):
         for _ in range(nout):
             evs.insert(rng.randrange(xi + 1), ["out", [65 + rng.randrange(3)]])
             xi += 1
-        case = {"events": evs, "enc": enc, "in": stream, "pty": rng.random() < 0.25, "hide": "both",
-                "respond": respond, "warn": True, "async": rng.random() < 0.2,
+        if respond and stream:
+            # responses are written to the same pipe: keep them before the input's EOF (a response after the
+            # close is the defect F-C12d, witnessed separately)
+            eofs = [e for e in evs if e[0] == "in_eof"]
+            if eofs:
+                evs = [e for e in evs if e[0] != "in_eof"]
+                xi2 = next(i for i, e in enumerate(evs) if e[0] == "exit")
+                if all(e[0] == "in" for e in evs[xi2 + 1:]):
+                    evs.append(eofs[0])          # EOF after every input unit and (outs precede the exit) every response
+        case = {"events": evs, "enc": enc, "in": stream, "pty": rng.random() < 0.25,
+                "hide": "both" if nout else rng.choice(["both", "both", "none", "stdout", "stderr"]),
+                "respond": respond, "warn": rng.random() < 0.7, "async": rng.random() < 0.2,
                 # where "the output stream" is: an explicit out_stream object, or sys.stdout
                 # (an explicit object is never hidden, so only without stdout reads for the watcher)
                 "out_given": nout == 0 and rng.random() < 0.5,
@@ -144,6 +155,7 @@ class C13(Prop):
         e = rng.choice(["none", "none", "true", "false"])
         if e != "none":
             case["echo_stdin"] = (e == "true")
+            case["echo_from"] = rng.choice(["kwarg", "kwarg", "config"])
         return case
 
     phases = None
@@ -367,6 +379,7 @@ def real_cases(tier):
     cs.append({"kind": "default-stdin"})                 # in_stream not given: the interpreter's piped sys.stdin
     cs.append({"kind": "pty-head", "text": "abc\n"})
     # optional
+    cs.append({"kind": "respond-after-eof", "optional": True})                     # F-C12d (shared with C12)
     cs.append({"kind": "bom", "optional": True})                                   # F-C13c
     cs.append({"kind": "cat", "text": "héllo", "mode": "bytes", "optional": True})  # F-C13 on the real runner
     cs.append({"kind": "open-pipe", "buffered": True, "optional": True})           # F-C13b
@@ -435,6 +448,12 @@ def real_case(c):
         ok = b"GOT 'hi there\\n'" in p.stdout
         return None if ok else {"case": c, "what": {"stdout": p.stdout[-200:].decode("utf-8", "replace"),
                                                     "stderr": p.stderr[-300:].decode("utf-8", "replace")}}
+    elif kind == "respond-after-eof":
+        # the input stream is exhausted at once (child stdin closed); the watcher answers a later prompt
+        kw["in_stream"] = io.StringIO("")
+        kw["watchers"] = [Responder(pattern=r"Q\?", response="yes\n")]
+        cmd = [sys.executable, "-u", "-c",
+               "import sys,time; time.sleep(0.6); print('Q?'); x=sys.stdin.readline(); print('got', repr(x))"]
     elif kind == "respond-no-newline":
         kw["in_stream"] = False
         kw["watchers"] = [Responder(pattern=r"Q\?", response="yes")]
@@ -443,7 +462,7 @@ def real_case(c):
         rfd, wfd = os.pipe()
         os.write(wfd, b"abc")                     # write end stays open: no EOF on the input stream
         kw["in_stream"] = os.fdopen(rfd, "r") if c["buffered"] else os.fdopen(rfd, "rb", 0)
-        cmd = "head -c 3"
+        cmd = "head -c 1; head -c 2"         # prints the first character as soon as it arrives
     elif kind == "pty-head":
         kw["in_stream"] = io.StringIO(c["text"])
         kw["pty"] = True
@@ -464,11 +483,19 @@ def real_case(c):
         except OSError:
             pass
     case = {k: (v if len(str(v)) < 60 else str(v)[:60] + "...") for k, v in c.items()}
-    if r["hang"] and kind == "open-pipe" and c["buffered"]:
+    if r["hang"] and kind == "open-pipe" and c["buffered"] and (r["stdout"] or "") == "a":
         return {"case": case, "finding": "F-C13b",
                 "what": "3 characters available on a buffered text input stream over an open pipe: only the first "
                         "read is forwarded, the rest sits in the TextIOWrapper buffer while select() reports the "
                         "descriptor not ready; head -c 3 never completes"}
+    if kind == "respond-after-eof":
+        if r["outcome"] == "Result":
+            return None
+        if r["outcome"] == "ThreadException" and "ValueError" in (r.get("thread_excs") or []):
+            return {"case": case, "finding": "F-C12d",
+                    "what": "input at EOF closed the child's stdin; the watcher's later response raised ValueError "
+                            "(closed file) in the stdout worker: ThreadException"}
+        return {"case": case, "what": "outcome %s %s" % (r["outcome"], r.get("thread_excs"))}
     if r["hang"]:
         return {"case": case, "what": "run() did not end in time (child never got its input / EOF?): %s" % r["hang_what"]}
     if r["outcome"] != "Result":
